@@ -3,6 +3,7 @@ package dbworld
 import (
 	"errors"
 	"fmt"
+	"iter"
 	"sort"
 
 	"github.com/cilium/statedb"
@@ -23,11 +24,12 @@ type WTxn struct {
 	iwatches  []*Watch // channels returned by InsertWatch in this transaction
 	undone    []*initReg
 	doneMarks []*initReg
-	result    *Snap    // bound snapshot returned by Commit
-	refSnap   *Snap    // C02: committed state bound right after the transaction began ...
-	refAns    []answer // ... and the real answers it gave then
-	finished  bool     // Commit or Abort has been invoked
-	done      bool     // Commit or Abort has returned
+	result    *Snap     // bound snapshot returned by Commit
+	held      []*pulled // query sequences obtained through the transaction and only partly consumed so far
+	refSnap   *Snap     // C02: committed state bound right after the transaction began ...
+	refAns    []answer  // ... and the real answers it gave then
+	finished  bool      // Commit or Abort has been invoked
+	done      bool      // Commit or Abort has returned
 	ops       int
 }
 
@@ -144,6 +146,10 @@ func (w *World) commit(t *simcore.Task, wt *WTxn) {
 	if wt.finished {
 		return
 	}
+	for _, pl := range wt.held {
+		pl.stop()
+	}
+	wt.held = nil
 	mc := &MCommit{ID: wt.id, Entries: map[int]int{}, RevChg: map[int]bool{}}
 	for _, ti := range wt.tables {
 		tc := w.tables[ti]
@@ -216,6 +222,10 @@ func (w *World) abort(t *simcore.Task, wt *WTxn) {
 	if wt.finished {
 		return
 	}
+	for _, pl := range wt.held {
+		pl.stop()
+	}
+	wt.held = nil
 	for _, ti := range wt.tables {
 		w.tables[ti].M.Writers--
 	}
@@ -527,7 +537,19 @@ func (w *World) writeOp(t *simcore.Task, wt *WTxn) bool {
 	if len(wt.tables) == 0 || wt.finished {
 		return true
 	}
+	// a sequence obtained through the transaction earlier is consumed now, after later writes of the
+	// same transaction: it must yield the state at its creation
+	if len(wt.held) > 0 && wt.ops > wt.held[0].atOps && c.Choose(2) == 0 {
+		pl := wt.held[0]
+		wt.held = wt.held[1:]
+		if !w.finishHeld(wt, pl) {
+			return false
+		}
+	}
 	ti := wt.tables[c.Choose(len(wt.tables))]
+	if len(wt.held) > 0 && wt.locked(wt.held[0].ti) && c.Choose(4) != 0 {
+		ti = wt.held[0].ti // write under the held sequence
+	}
 	tc := w.tables[ti]
 	st := wt.staged[ti]
 	wt.ops++
@@ -853,6 +875,12 @@ func (w *World) writeOp(t *simcore.Task, wt *WTxn) bool {
 		if rst == nil {
 			return true
 		}
+		if wt.locked(rti) && len(wt.held) < 2 && c.Choose(2) == 0 {
+			w.holdSequence(wt, rti, rst)
+			if w.S.Failed() {
+				return false
+			}
+		}
 		return w.checkTable(w.P.ReadProp, wt.txn, w.tables[rti], rst, w.P.BatteryQueries, fmt.Sprintf("through T%d", wt.id))
 	}
 	return true
@@ -1085,4 +1113,76 @@ func (w *World) writerTask(t *simcore.Task) {
 			}
 		}
 	}
+}
+
+// holdSequence starts a query sequence through the write transaction and consumes only its first element(s).
+func (w *World) holdSequence(wt *WTxn, ti int, st *TableState) {
+	c := w.C
+	tc := w.tables[ti]
+	qs := w.candidateQueries(tc, st)
+	q := qs[c.Choose(len(qs))]
+	if q.Q == QGet {
+		return
+	}
+	prop := "C03"
+	if w.prop == "C01" {
+		prop = "C01"
+	}
+	// the expectation is what the same query answers through the transaction right now
+	var want []MObj
+	if !w.guard(prop, q.String(), func() { want, _ = realQuery(tc, wt.txn, q, 0) }) {
+		return
+	}
+	if len(want) < 1 {
+		return
+	}
+	var seq iter.Seq2[*Obj, statedb.Revision]
+	if !w.guard(prop, q.String(), func() { seq = realSeq(tc, wt.txn, q) }) {
+		return
+	}
+	next, stop := iter.Pull2(seq)
+	pl := &pulled{ti: ti, q: q, next: next, stop: stop, expect: want, atOps: wt.ops}
+	if c.Choose(2) == 0 {
+		// partly consumed now; otherwise the sequence is only obtained now and ranged over later
+		o, r, ok := next()
+		if !ok || want[0].Rev != r || !objEqual(want[0].O, o) {
+			stop()
+			w.violate(prop, "txn-iterator", "T%d: %v through the transaction yields %v@%d first, the same query just answered %s", wt.id, q, o, r, fmtRes(want))
+			return
+		}
+		pl.taken = 1
+	}
+	wt.held = append(wt.held, pl)
+	w.probe("txn-iterator-held")
+}
+
+// finishHeld consumes the rest of a held sequence.
+func (w *World) finishHeld(wt *WTxn, pl *pulled) bool {
+	defer pl.stop()
+	prop := "C03"
+	if w.prop == "C01" {
+		prop = "C01"
+	}
+	for {
+		var o *Obj
+		var r statedb.Revision
+		var ok bool
+		if !w.guard(prop, "resuming "+pl.q.String(), func() { o, r, ok = pl.next() }) {
+			return false
+		}
+		if !ok {
+			break
+		}
+		if pl.taken >= len(pl.expect) || pl.expect[pl.taken].Rev != r || !objEqual(pl.expect[pl.taken].O, o) {
+			w.violate(prop, "txn-iterator", "T%d: %v obtained through the transaction and resumed after later writes yields %v@%d at position %d; at its creation the query answered %s", wt.id, pl.q, o, r, pl.taken, fmtRes(pl.expect))
+			return false
+		}
+		pl.taken++
+	}
+	if pl.taken != len(pl.expect) {
+		w.violate(prop, "txn-iterator", "T%d: %v obtained through the transaction ended after %d elements; at its creation the query answered %s", wt.id, pl.q, pl.taken, fmtRes(pl.expect))
+		return false
+	}
+	w.probe("txn-iterator-finished-after-writes")
+	return true
 }
